@@ -486,3 +486,37 @@ def ua_borrow(ctx):
     if n < 1:
         out.append(undecided(R, 'floor', 'no future_sync job closure dereferencing the payload pointer was found'))
     return out
+
+
+LEAKERS = ('core::mem::forget', 'core::mem::manually_drop::ManuallyDrop::new', 'alloc::boxed::Box::leak', 'alloc::sync::Arc::into_raw', 'alloc::rc::Rc::into_raw',
+           'alloc::sync::Arc::increment_strong_count', 'alloc::boxed::Box::into_raw', 'alloc::vec::Vec::leak')
+LEAK_AUDITED = {
+    ('desync::Desync::new', 'alloc::boxed::Box::into_raw'): 'the payload box; re-boxed and freed exactly once in Desync::drop (UA-free)',
+}
+
+
+def ua_leak(ctx):
+    """Nothing is deliberately kept from being dropped.  The protocol leans on destructors in several places (a dropped QueueResumer resumes
+    the queue, a dropped signaller cancels its future, a dropped oneshot sender counts as "finished", a dropped UnsafeJob notifies its waiter):
+    a value that is forgotten takes those signals with it."""
+    F = ctx.F
+    out = []
+    n = 0
+    for fn in F.crate_fns():
+        for bb, t in fn.calls():
+            name = t['func'].get('fn') or ''
+            if name not in LEAKERS or fn.blocks[bb]['cleanup']:
+                continue
+            n += 1
+            key = '%s|%s' % (short(fn.root or fn.name), name.split('::')[-1])
+            why = LEAK_AUDITED.get((fn.root or fn.name, name))
+            if why:
+                out.append(ok('UA-leak', key, 'audited: ' + why, loc=fn.loc(bb), fn=fn.name))
+            else:
+                what = clean_ty(t['args'][0]['pl']['ty']) if t['args'] and t['args'][0]['k'] != 'const' else '?'
+                out.append(bad('UA-leak', key, 'a value of type %s is deliberately never dropped (%s): whatever waits for its destructor (a resumed queue, a cancelled future, a finished hand-shake, a freed result) waits for ever' % (what[:80], name.split('::')[-1]), loc=fn.loc(bb), fn=fn.name))
+    if n < 1:
+        out.append(undecided('UA-leak', 'floor', 'the audited Box::into_raw of Desync::new was not found'))
+    elif not any(i.verdict == 'violation' for i in out):
+        out.append(ok('UA-leak', 'none', '%d leak-capable call(s), all audited' % n))
+    return out
